@@ -6,6 +6,7 @@ TRUSTED_BASE = [
     "T3 z3 4.x/5.1 (cvc5 1.0 as second opinion on unknown)",
     "T5 Python integers are modelled as mathematical integers (exact); floor division/modulo by a symbolic divisor are uninterpreted functions constrained by their defining equation at every use",
     "T6 assert statements are enabled (no python -O)",
+    "T10 argument forms: contracts quantify over values (Python ints, re-iterable sequences, unaliased containers); numpy integers, one-shot iterators, memoryviews and buffers shared with the caller are exercised only by the bounded layers (C05, C11, C12, C15, C16)",
 ]
 
 PROPS = {
